@@ -226,6 +226,63 @@ def websocketError : FwdResult → Nat × Bytes
 /-- `utf8.RuneStart`. -/
 def runeStart (b : UInt8) : Bool := b &&& 0xC0 != 0x80
 
+/-! ### UTF-8 as Go's `unicode/utf8` accepts it
+
+  A byte-at-a-time acceptor with the accept ranges of `utf8.first` / `utf8.acceptRanges`: no overlong forms
+  (`C0`, `C1`, `E0 80..9F`, `F0 80..8F`), no surrogates (`ED A0..BF`), nothing above U+10FFFF (`F4 90..`, `F5..FF`). -/
+
+inductive U8
+  | start          -- between runes
+  | c1             -- one continuation byte to go
+  | c2 | c2e0 | c2ed   -- two to go (generic / after E0: A0..BF / after ED: 80..9F)
+  | c3 | c3f0 | c3f4   -- three to go (generic / after F0: 90..BF / after F4: 80..8F)
+  | bad
+deriving DecidableEq, Repr
+
+def utf8Step (q : U8) (b : UInt8) : U8 :=
+  match q with
+  | .start =>
+    if b.toNat < 0x80 then .start else if b.toNat < 0xC2 then .bad else if b.toNat < 0xE0 then .c1
+    else if b.toNat = 0xE0 then .c2e0 else if b.toNat = 0xED then .c2ed else if b.toNat < 0xF0 then .c2
+    else if b.toNat = 0xF0 then .c3f0 else if b.toNat < 0xF4 then .c3 else if b.toNat = 0xF4 then .c3f4 else .bad
+  | .c1 => if 0x80 ≤ b.toNat ∧ b.toNat < 0xC0 then .start else .bad
+  | .c2 => if 0x80 ≤ b.toNat ∧ b.toNat < 0xC0 then .c1 else .bad
+  | .c2e0 => if 0xA0 ≤ b.toNat ∧ b.toNat < 0xC0 then .c1 else .bad
+  | .c2ed => if 0x80 ≤ b.toNat ∧ b.toNat < 0xA0 then .c1 else .bad
+  | .c3 => if 0x80 ≤ b.toNat ∧ b.toNat < 0xC0 then .c2 else .bad
+  | .c3f0 => if 0x90 ≤ b.toNat ∧ b.toNat < 0xC0 then .c2 else .bad
+  | .c3f4 => if 0x80 ≤ b.toNat ∧ b.toNat < 0x90 then .c2 else .bad
+  | .bad => .bad
+
+/-- `utf8.Valid` / `utf8.ValidString` -/
+def ValidUTF8 (s : Bytes) : Bool := s.foldl utf8Step .start == .start
+
+/-- the first `n` bytes of `s` exist and form whole runes -/
+def okPrefix (s : Bytes) (n : Nat) : Bool := n ≤ s.length && (s.take n).foldl utf8Step .start == .start
+
+/-- `utf8.DecodeRuneInString(s)`, as far as its width is concerned: `some n` = a well-formed rune of `n`
+    bytes starts `s`; `none` = `(RuneError, 1)` (or `s` is empty) -/
+def runeLen (s : Bytes) : Option Nat :=
+  if okPrefix s 1 then some 1 else if okPrefix s 2 then some 2 else if okPrefix s 3 then some 3
+  else if okPrefix s 4 then some 4 else none
+
+/-- `"\uFFFD"` -/
+def replacementChar : Bytes := [0xEF, 0xBF, 0xBD]
+
+/-- the main loop of `strings.ToValidUTF8(s, "\uFFFD")`: well-formed runes are copied, every *run* of bytes
+    that start no well-formed rune becomes one replacement character (`invalid` = the previous byte was
+    such a byte). `fuel` ≥ the remaining length. (The function's first loop only finds the first invalid
+    byte and copies what precedes it — the same as running this loop from the start.) -/
+def toValidAux : Nat → Bool → Bytes → Bytes
+  | 0, _, _ => []
+  | _, _, [] => []
+  | fuel + 1, invalid, c :: rest =>
+    match runeLen (c :: rest) with
+    | some n => (c :: rest).take n ++ toValidAux fuel false ((c :: rest).drop n)
+    | none => (if invalid then [] else replacementChar) ++ toValidAux fuel true rest
+
+def toValidUTF8 (s : Bytes) : Bytes := toValidAux s.length false s
+
 /-- `for n > 0 && !utf8.RuneStart(reason[n]) { n-- }` -/
 def truncPoint (r : Bytes) : Nat → Nat
   | 0 => 0
@@ -235,10 +292,12 @@ def truncPoint (r : Bytes) : Nat → Nat
 
 def maxCloseReasonLen : Nat := 123
 
-/-- `closeReason` (webbridge/websocket.go) on a reason that is valid UTF-8 (`strings.ToValidUTF8`
-    is then the identity): cut at most 123 bytes, on a rune boundary. -/
-def closeReason (r : Bytes) : Bytes :=
+/-- `closeReason` after its first statement: cut at most 123 bytes, backing off to a rune start. -/
+def truncReason (r : Bytes) : Bytes :=
   if r.length ≤ maxCloseReasonLen then r else r.take (truncPoint r maxCloseReasonLen)
+
+/-- `closeReason` (webbridge/websocket.go), whole: `strings.ToValidUTF8(reason, "\uFFFD")`, then the cut. -/
+def closeReason (r : Bytes) : Bytes := truncReason (toValidUTF8 r)
 
 /-- gws `Conn.emitError`: code ++ reason, cut to 125 bytes (environment fact). -/
 def gwsClosePayload (code : Nat) (reason : Bytes) : Bytes :=
